@@ -7,23 +7,9 @@
 (* Labels without a counterpart in the log are taken as silent steps in a  *)
 (* canonical order; the highest position reached is kept in a TLC register.*)
 (***************************************************************************)
-EXTENDS MC_Loader, Json, TLCExt
+EXTENDS LoaderEvents, Json, TLCExt
 EvTrace == ndJsonDeserialize(IOEnv.TRACE_FILE)
 VARIABLE l
-Kind == [LdIn |-> "loaded.in", LdGet |-> "loaded.get", LgIn |-> "loading.in", LgGet |-> "loading.get",
-         Join |-> "join", Joined |-> "joined", LgPop |-> "loading.pop", Pub |-> "loaded.set",
-         DfLdIn |-> "loaded.in", DfLgIn |-> "loading.in", DfSet |-> "loading.set", DfGet |-> "loading.get",
-         DfStart |-> "start", MBegin |-> "begin", TBegin |-> "begin", RfClear |-> "loaded.clear"]
-IsAccess(p) == pc[p] \in DOMAIN Kind
-IsLocal(p) == pc[p] \notin DOMAIN Kind /\ pc[p] \notin {"Done", "Halt", "DHalt"}
-\* the argument the model's process would use at its current label
-ArgU(p) == CASE pc[p] \in {"LdIn", "LdGet", "LgIn", "LgGet", "LgPop"} -> u[p]
-             [] pc[p] = "Pub" -> v[p]
-             [] pc[p] \in {"DfLdIn", "DfLgIn", "DfSet", "DfGet"} -> w[p]
-             [] OTHER -> "-"
-ArgT(p) == CASE pc[p] \in {"Join", "Joined"} -> jt[p]
-             [] pc[p] = "DfStart" -> st[p]
-             [] OTHER -> 0
 StepOf(p) == Load(p) \/ RawLoad(p) \/ Deferred(p) \/ (p = Main /\ M(p)) \/ (p \in Thr /\ T(p))
 TInit == Init /\ l = 1 /\ TLCSet(1, 1)
 Silent == \E p \in Procs : /\ IsLocal(p) /\ \A q \in Procs : q < p => ~IsLocal(q)
